@@ -263,6 +263,8 @@ class ATP_Store:
                     self._record_transaction(energy_type, -cost, operation, True)
                     self._update_state()
                     return True
+                # Debt (below) must be measured against the topped-up balance
+                balance = self.atp
 
             # Try to use debt
             if allow_debt and self._debt < self.max_debt:
@@ -274,6 +276,8 @@ class ATP_Store:
                         self.atp = 0
                     elif energy_type == EnergyType.GTP:
                         self.gtp = 0
+                    else:
+                        self.nadh = 0
 
                     if not self.silent:
                         print(f"💳 [Metabolism] Energy debt: +{deficit} (total: {self._debt})")
@@ -376,7 +380,7 @@ class ATP_Store:
             ratio = total_current / total_capacity
 
         # Account for debt
-        if self._debt > 0:
+        if self._debt > 0 and total_capacity > 0:
             ratio -= (self._debt / total_capacity) * 0.5
 
         if ratio <= self.STARVING_THRESHOLD:
